@@ -220,6 +220,19 @@ func engineHTree(c *Ctx) {
 			nops = 2*nk + r.Intn(nk)
 		}
 		off := uint32(256)
+		if big {
+			// every key once, live: the inner nodes start ABOVE the threshold; the random calls below (sets, removes,
+			// listings in between) then take them across it in both directions
+			for _, kh := range keys {
+				h.apply(c, "tset", []string{strconv.FormatUint(kh, 10), strconv.Itoa(1 + r.Intn(5)), strconv.Itoa(r.Intn(65536)), "0", strconv.FormatUint(uint64(off), 10)})
+				off += 256
+				if r.Chance(2) {
+					h.apply(c, "tupdate", nil)
+				}
+			}
+			h.apply(c, "tupdate", nil)
+			nops = nk + r.Intn(nk)
+		}
 		for n := 0; n < nops; n++ {
 			kh := keys[r.Intn(nk)]
 			switch p := r.Intn(100); {
